@@ -3,12 +3,17 @@ import Driver.Storage
 import Lean.Elab.Deriving.FromToJson
 import Canine.Oracle.Model
 import Canine.Storage.Wasm
+import Canine.Genesis.Modules
 open Lean (Json FromJson ToJson fromJson? toJson)
 namespace Canine.Oracle
 deriving instance FromJson, ToJson for Feed
 deriving instance FromJson, ToJson for State
 deriving instance FromJson, ToJson for Op
 end Canine.Oracle
+namespace Canine.Genesis.Oracle
+deriving instance FromJson, ToJson for Params
+deriving instance FromJson, ToJson for GenesisState
+end Canine.Genesis.Oracle
 
 namespace Driver.Msgs
 open Canine Driver
@@ -16,11 +21,25 @@ open Canine Driver
 def checkOracle (j : Json) : Except String (Option String) := do
   let pre : Oracle.State ← getField j "pre" >>= fromJson?
   let post : Oracle.State ← getField j "post" >>= fromJson?
+  let diff (m i : Oracle.State) := allSome [cmpMap "feeds" (Storage.canonMap m.feeds) (Storage.canonMap i.feeds),
+    cmpMap "bank" (Storage.canonMap (canonBank m.bank)) (Storage.canonMap (canonBank i.bank))]
+  if let .ok (.str "restart") := getField j "op" then
+    -- nothing the module holds may change; the oracle genesis model must export what the chain exported
+    let gd : Option String ←
+      match j.getObjVal? "genesis" with
+      | .ok gj =>
+        if gj.isNull then pure none else do
+        let g : Genesis.Oracle.GenesisState ← fromJson? gj
+        let m := Genesis.Oracle.exportGenesis pre
+        let imported := Genesis.Oracle.initGenesis (Genesis.Oracle.blank pre) g
+        pure (allSome [cmpField "genesis.params" m.params g.params, cmpField "genesis.feedList" m.feedList g.feedList,
+          cmpField "genesis.validate" (Genesis.Oracle.validate g) ((gj.getObjValAs? Bool "validateOk").toOption.getD true),
+          (diff imported post).map (fun d => "genesis.import " ++ d), cmpField "genesis.import.deposit" imported.deposit post.deposit])
+      | .error _ => pure none
+    return allSome [diff pre post, cmpField "deposit" pre.deposit post.deposit, gd]
   let op : Oracle.Op ← getField j "op" >>= fromJson?
   let now : Int ← getField j "now" >>= fromJson?
   let ok : Bool ← getField j "ok" >>= fromJson?
-  let diff (m i : Oracle.State) := allSome [cmpMap "feeds" (Storage.canonMap m.feeds) (Storage.canonMap i.feeds),
-    cmpMap "bank" (Storage.canonMap (canonBank m.bank)) (Storage.canonMap (canonBank i.bank))]
   match Oracle.step pre now op with
   | none =>
     if ok then return some "field=outcome model=failed impl=ok"
